@@ -301,6 +301,12 @@ class Check:
         self.distinct = set()
         self.stats = {}
         os.makedirs(os.path.join(OUT, "replays"), exist_ok=True)
+        for f in os.listdir(os.path.join(OUT, "replays")):      # replays of earlier runs of this check
+            if f.startswith(prop_id + "_"):
+                try:
+                    os.remove(os.path.join(OUT, "replays", f))
+                except OSError:
+                    pass
         os.makedirs(os.path.join(VERIF, "evidence"), exist_ok=True)
         kf = os.path.join(VERIF, "known_findings.json")
         self.known = [k for k in json.load(open(kf)).get("findings", []) if k.get("property") == prop_id] if os.path.exists(kf) else []
